@@ -3,7 +3,7 @@ sys.path.insert(0, '/verif/lib')
 import common, core, gen
 ok, out = common.build_coq()
 print('coq', ok, out[-500:] if not ok else '')
-exe, o = common.build_harness()
+exe, o = common.build_harness("core")
 print('harness', exe)
 seed = int(sys.argv[1]); n = int(sys.argv[2])
 rng = random.Random(seed)
